@@ -673,11 +673,14 @@ def _loop_runs(st, nonneg):
     return False
 
 
-def definite_assignment(fn, nonneg=frozenset(), optimistic=False):
+def definite_assignment(fn, nonneg=frozenset()):
     """Reads of a local variable that is not assigned on every path reaching the read.  In the interpreter that read raises
     UnboundLocalError; numba compiles the function (the variable has other definitions) and reads a zero-initialised slot: the two
-    modes disagree without any diagnostic.  Flow-sensitive over if / for / while / try / with / return; a loop body may run zero times.
-    -> [(name, line, definite)]: definite = unassigned on every path (no assignment precedes the read at all)."""
+    modes disagree without any diagnostic.  Flow-sensitive over if / for / while / try / with / match / return with two sets per point:
+    MUST (assigned on every path) and MAY (assigned on some path).
+    -> [(name, line, kind)]: kind 'never' = no path to the read assigns it (a definite defect on that path);
+                             kind 'maybe' = some paths do, some do not (a loop that may be empty, an if/elif chain without else: only a
+                             defect if that path can be taken - not decidable here)."""
     a = fn.args
     params = {x.arg for x in a.posonlyargs + a.args + a.kwonlyargs} | ({a.vararg.arg} if a.vararg else set()) | ({a.kwarg.arg} if a.kwarg else set())
     own = [n for n in ast.walk(fn) if n is not fn]
@@ -692,15 +695,17 @@ def definite_assignment(fn, nonneg=frozenset(), optimistic=False):
 
     locals_ = {n.id for n in own if isinstance(n, ast.Name) and isinstance(n.ctx, ast.Store) and not in_nested_scope(n)}
     locals_ |= {n.name for n in own if isinstance(n, (ast.FunctionDef, ast.ClassDef)) and getattr(n, "_parent", None) is not None and not in_nested_scope(n)}
-    declared_global = {nm for n in own if isinstance(n, (ast.Global, ast.Nonlocal)) for nm in n.names}
-    locals_ -= declared_global
+    locals_ -= {nm for n in own if isinstance(n, (ast.Global, ast.Nonlocal)) for nm in n.names}
     problems = []
-    ever = set()  # assigned somewhere textually before (for the definite / may distinction)
 
-    def reads(expr, defined):
+    def note(name, line, st):
+        must, may = st
+        if name in locals_ and name not in params and name not in must:
+            problems.append((name, line, "maybe" if name in may else "never"))
+
+    def reads(expr, st):
         for n in ast.walk(expr):
-            if isinstance(n, ast.Name) and isinstance(n.ctx, ast.Load) and n.id in locals_ and n.id not in params and n.id not in defined:
-                # names bound by an enclosing comprehension / lambda inside this expression are their own scope
+            if isinstance(n, ast.Name) and isinstance(n.ctx, ast.Load):
                 p, shadow = getattr(n, "_parent", None), False
                 while p is not None and p is not expr:
                     if isinstance(p, (ast.ListComp, ast.SetComp, ast.DictComp, ast.GeneratorExp)):
@@ -710,130 +715,144 @@ def definite_assignment(fn, nonneg=frozenset(), optimistic=False):
                         shadow = True
                     p = getattr(p, "_parent", None)
                 if not shadow:
-                    problems.append((n.id, n.lineno, n.id not in ever))
+                    note(n.id, n.lineno, st)
 
-    def bind(target, defined):
+    def bind(target, st):
+        must, may = st
         for n in ast.walk(target):
             if isinstance(n, ast.Name) and isinstance(n.ctx, ast.Store):
-                defined.add(n.id)
-                ever.add(n.id)
+                must.add(n.id)
+                may.add(n.id)
             elif isinstance(n, (ast.Subscript, ast.Attribute)) and n is target:
-                reads(n, defined)
+                reads(n, st)
 
-    def block(stmts, defined):
-        """-> set of names defined after the block, or None if every path through it leaves (return / raise / continue / break)"""
-        defined = set(defined)
-        for st in stmts:
-            if isinstance(st, ast.Assign):
-                reads(st.value, defined)
-                for t in st.targets:
-                    bind(t, defined)
-            elif isinstance(st, ast.AugAssign):
-                reads(st.value, defined)
-                if isinstance(st.target, ast.Name):
-                    if st.target.id in locals_ and st.target.id not in params and st.target.id not in defined:
-                        problems.append((st.target.id, st.lineno, st.target.id not in ever))
-                    defined.add(st.target.id)
-                    ever.add(st.target.id)
+    def bound_names(node):
+        return {x.id for x in ast.walk(node) if isinstance(x, ast.Name) and isinstance(x.ctx, ast.Store)}
+
+    def join(states, fallback):
+        alive = [s_ for s_ in states if s_ is not None]
+        if not alive:
+            return None
+        return (set.intersection(*[set(m) for m, _ in alive]), set.union(*[set(y) for _, y in alive]))
+
+    def block(stmts, st):
+        """-> (must, may) after the block, or None if every path through it leaves (return / raise / continue / break)"""
+        st = (set(st[0]), set(st[1]))
+        for s_ in stmts:
+            if isinstance(s_, ast.Assign):
+                reads(s_.value, st)
+                for t in s_.targets:
+                    bind(t, st)
+            elif isinstance(s_, ast.AugAssign):
+                reads(s_.value, st)
+                if isinstance(s_.target, ast.Name):
+                    note(s_.target.id, s_.lineno, st)
+                    st[0].add(s_.target.id)
+                    st[1].add(s_.target.id)
                 else:
-                    reads(st.target, defined)
-            elif isinstance(st, ast.AnnAssign):
-                if st.value is not None:
-                    reads(st.value, defined)
-                    bind(st.target, defined)
-            elif isinstance(st, (ast.Return, ast.Raise)):
-                for v in ast.iter_child_nodes(st):
+                    reads(s_.target, st)
+            elif isinstance(s_, ast.AnnAssign):
+                if s_.value is not None:
+                    reads(s_.value, st)
+                    bind(s_.target, st)
+            elif isinstance(s_, (ast.Return, ast.Raise)):
+                for v in ast.iter_child_nodes(s_):
                     if isinstance(v, ast.expr):
-                        reads(v, defined)
+                        reads(v, st)
                 return None
-            elif isinstance(st, (ast.Continue, ast.Break)):
+            elif isinstance(s_, (ast.Continue, ast.Break)):
                 return None
-            elif isinstance(st, ast.If):
-                reads(st.test, defined)
-                d1 = block(st.body, defined)
-                d2 = block(st.orelse, defined) if st.orelse else set(defined)
-                if d1 is None and d2 is None:
+            elif isinstance(s_, ast.If):
+                reads(s_.test, st)
+                d1 = block(s_.body, st)
+                d2 = block(s_.orelse, st) if s_.orelse else (set(st[0]), set(st[1]))
+                j = join([d1, d2], st)
+                if j is None:
                     return None
-                defined = d2 if d1 is None else (d1 if d2 is None else d1 & d2)
-            elif isinstance(st, (ast.For, ast.While)):
-                if isinstance(st, ast.For):
-                    reads(st.iter, defined)
-                    inner = set(defined)
-                    bind(st.target, inner)
+                st = j
+            elif isinstance(s_, (ast.For, ast.While)):
+                body_binds = bound_names(s_)
+                if isinstance(s_, ast.For):
+                    reads(s_.iter, st)
+                    inner = (set(st[0]), set(st[1]) | body_binds)  # from the second iteration on, what the body binds may be bound
+                    bind(s_.target, inner)
                 else:
-                    reads(st.test, defined)
-                    inner = set(defined)
-                # second pass semantics: names assigned later in the body are visible at its top from the second iteration on, but
-                # not on the first: analyse the body once with what precedes the loop
-                d_body = block(st.body, inner)
-                if st.orelse:
-                    block(st.orelse, defined)
-                # after the loop: the body may not have run - unless it provably runs (or, in the optimistic pass, by assumption)
-                if d_body is not None and not any(isinstance(x, (ast.Break, ast.Continue)) for x in ast.walk(st)) and \
-                        (optimistic or (isinstance(st, ast.For) and _loop_runs(st, nonneg))):
-                    defined = d_body
-            elif isinstance(st, ast.With):
-                for it in st.items:
-                    reads(it.context_expr, defined)
+                    inner = (set(st[0]), set(st[1]) | body_binds)
+                    reads(s_.test, inner)
+                d_body = block(s_.body, inner)
+                if s_.orelse:
+                    block(s_.orelse, (set(st[0]), set(st[1]) | body_binds))
+                runs = isinstance(s_, ast.For) and _loop_runs(s_, nonneg) and d_body is not None and not any(isinstance(x, (ast.Break, ast.Continue)) for x in ast.walk(s_))
+                st = ((set(d_body[0]) if runs else set(st[0])), set(st[1]) | body_binds)
+            elif isinstance(s_, ast.With):
+                for it in s_.items:
+                    reads(it.context_expr, st)
                     if it.optional_vars is not None:
-                        bind(it.optional_vars, defined)
-                d = block(st.body, defined)
+                        bind(it.optional_vars, st)
+                d = block(s_.body, st)
                 if d is None:
                     return None
-                defined = d
-            elif isinstance(st, ast.Try):
-                d0 = block(st.body, defined)
+                st = d
+            elif isinstance(s_, ast.Try):
+                d0 = block(s_.body, st)
                 outs = []
-                for h in st.handlers:
-                    hd = set(defined)
+                for h in s_.handlers:
+                    hs = (set(st[0]), set(st[1]) | bound_names(ast.Module(body=s_.body, type_ignores=[])))
                     if h.name:
-                        hd.add(h.name)
-                    outs.append(block(h.body, hd))
-                if st.orelse and d0 is not None:
-                    d0 = block(st.orelse, d0)
-                alive = [d for d in [d0] + outs if d is not None]
-                if not alive:
+                        hs[0].add(h.name)
+                        hs[1].add(h.name)
+                    outs.append(block(h.body, hs))
+                if s_.orelse and d0 is not None:
+                    d0 = block(s_.orelse, d0)
+                j = join([d0] + outs, st)
+                if j is None:
                     return None
-                defined = set.intersection(*alive) if alive else defined
-                if st.finalbody:
-                    d = block(st.finalbody, defined)
+                st = j
+                if s_.finalbody:
+                    d = block(s_.finalbody, st)
                     if d is None:
                         return None
-                    defined = d
-            elif isinstance(st, (ast.FunctionDef, ast.AsyncFunctionDef, ast.ClassDef)):
-                defined.add(st.name)
-                ever.add(st.name)
-            elif isinstance(st, (ast.Import, ast.ImportFrom)):
-                for al in st.names:
-                    defined.add((al.asname or al.name).split(".")[0])
-            elif isinstance(st, ast.Expr):
-                reads(st.value, defined)
-            elif isinstance(st, (ast.Assert,)):
-                reads(st.test, defined)
-            elif isinstance(st, ast.Delete):
-                for t in st.targets:
+                    st = d
+            elif isinstance(s_, (ast.FunctionDef, ast.AsyncFunctionDef, ast.ClassDef)):
+                st[0].add(s_.name)
+                st[1].add(s_.name)
+            elif isinstance(s_, (ast.Import, ast.ImportFrom)):
+                for al in s_.names:
+                    nm = (al.asname or al.name).split(".")[0]
+                    st[0].add(nm)
+                    st[1].add(nm)
+            elif isinstance(s_, ast.Expr):
+                reads(s_.value, st)
+            elif isinstance(s_, ast.Assert):
+                reads(s_.test, st)
+            elif isinstance(s_, ast.Delete):
+                for t in s_.targets:
                     if isinstance(t, ast.Name):
-                        defined.discard(t.id)
-            elif isinstance(st, ast.Match):
-                reads(st.subject, defined)
+                        st[0].discard(t.id)
+            elif isinstance(s_, ast.Match):
+                reads(s_.subject, st)
                 outs = []
-                for c in st.cases:
-                    cd = set(defined)
+                for c in s_.cases:
+                    cs = (set(st[0]), set(st[1]))
                     for n in ast.walk(c.pattern):
                         if isinstance(n, (ast.MatchAs, ast.MatchStar)) and n.name:
-                            cd.add(n.name)
-                    outs.append(block(c.body, cd))
-                alive = [d for d in outs if d is not None]
-                defined = (set.intersection(*alive) & defined) if alive else defined
-        return defined
+                            cs[0].add(n.name)
+                            cs[1].add(n.name)
+                    outs.append(block(c.body, cs))
+                exhaustive = any(isinstance(c.pattern, ast.MatchAs) and c.pattern.pattern is None and c.guard is None for c in s_.cases)
+                j = join(outs + ([] if exhaustive else [st]), st)
+                if j is None:
+                    return None
+                st = j
+        return st
 
-    block(fn.body, set(params))
+    block(fn.body, (set(params), set(params)))
     seen = set()
     out = []
-    for name, line, definite in problems:
+    for name, line, kind in problems:
         if (name, line) not in seen:
             seen.add((name, line))
-            out.append((name, line, definite))
+            out.append((name, line, kind))
     return out
 
 
@@ -845,15 +864,16 @@ def check_definite_assignment(rep, proj):
                 continue
             n += 1
             nonneg = _nonneg_tables(m.tree)
-            probs = definite_assignment(f.node, nonneg, optimistic=True)  # even if every loop body runs: a branch reads what it never assigned
-            if probs:
+            probs = definite_assignment(f.node, nonneg)
+            never = [p_ for p_ in probs if p_[2] == "never"]
+            maybe = [p_ for p_ in probs if p_[2] == "maybe"]
+            if never:
                 rep.bad("C18.assigned", f.site, f.fq,
-                        "; ".join(f"`{nm}` is read at line {ln} on a path where it was never assigned" + (" (no assignment precedes the read)" if d else "") for nm, ln, d in probs[:3])
+                        "; ".join(f"`{nm}` is read at line {ln} where no path from the function's entry has assigned it" for nm, ln, _ in never[:3])
                         + ": the interpreter raises UnboundLocalError there, the compiled kernel reads a zero-initialised slot and returns a number", key="assigned")
-                continue
-            maybe = definite_assignment(f.node, nonneg, optimistic=False)
-            if maybe:
-                rep.undecided("C18.assigned", f.site, f.fq, "; ".join(f"`{nm}` (line {ln}) is assigned only inside a loop whose body is not shown to run at least once" for nm, ln, d in maybe[:3]), key="assigned")
+            elif maybe:
+                rep.undecided("C18.assigned", f.site, f.fq, "; ".join(f"`{nm}` (line {ln}) is assigned on some paths to the read only (a loop that is not shown to run, "
+                              "an if/elif chain without else)" for nm, ln, _ in maybe[:3]), key="assigned")
             else:
                 rep.ok("C18.assigned", f.site, f.fq, "every local is assigned on every path before it is read (loops assumed possibly empty unless their range is a non-empty literal "
                        "or counts down from a table of non-negative integers)", key="assigned")
